@@ -137,6 +137,8 @@ class Gateway(Engine):
         self.devices: list[Device] = []
         self.device_by_id: dict[DeviceIdT, Device] = {}
 
+        self._array_heads: dict[tuple[DeviceIdT, Code], Message] = {}  # 1st parts
+
         self._zzz: MessageIndex | None = None  # MessageIndex()
 
     def __repr__(self) -> str:
@@ -294,6 +296,7 @@ class Gateway(Engine):
 
             self._prev_msg = None
             self._this_msg = None
+            self._array_heads = {}
 
         tmp_transport: RamsesTransportT  # mypy hint
 
@@ -564,11 +567,21 @@ class Gateway(Engine):
         # TODO: ideally remove this feature...
         assert self._this_msg  # mypy check
 
-        if self._prev_msg and detect_array_fragment(self._this_msg, self._prev_msg):
+        # the first part of an array is the latest array of that code from the same
+        # device, not merely the previous message: another device's packet may well
+        # arrive between the two parts (they are sent a second or two apart)
+        prev = self._prev_msg
+        if not (prev and detect_array_fragment(self._this_msg, prev)):
+            prev = self._array_heads.get((msg.src.id, msg.code))
+
+        if prev and prev is not msg and detect_array_fragment(self._this_msg, prev):
             msg._pkt._force_has_array()  # may be an array of length 1
-            msg._payload = self._prev_msg.payload + (
+            msg._payload = prev.payload + (
                 msg.payload if isinstance(msg.payload, list) else [msg.payload]
             )
+
+        if msg.verb == I_ and msg._has_array:
+            self._array_heads[(msg.src.id, msg.code)] = msg
 
         process_msg(self, msg)
 
